@@ -87,6 +87,11 @@ func (g *G) stmt(bd int) []hs.Stmt {
 	case r < 42:
 		return []hs.Stmt{g.letStmt(d)}
 	case r < 56:
+		if !g.c.Pure && g.c.Throws && g.chance("shadowExit", 10) && !(g.inExpr > 0 && g.c.off("exit-pending")) {
+			if st, ok := g.shadowExit(d); ok {
+				return st
+			}
+		}
 		if g.c.Options && !g.c.Pure && g.chance("optOfPlace", 12) {
 			if st, ok := g.optOfPlace(d); ok {
 				return st
@@ -433,6 +438,61 @@ func (g *G) assignStmt(d int) (hs.Stmt, bool) {
 		g.feat("compound-assign")
 	}
 	return hs.ExprStmt{X: hs.Assign{Op: op, L: target, R: r}}, true
+}
+
+// shadowExit: a local is shadowed - by a value of another type - in a block that is LEFT by break, continue or a
+// caught throw; afterwards the outer variable is used again. A scope ends however its block is left.
+func (g *G) shadowExit(d int) ([]hs.Stmt, bool) {
+	var cands []varInfo
+	for _, v := range g.visible() {
+		if !v.global && (v.t.K == hs.KInt || v.t.K == hs.KStr || v.t.K == hs.KBool) && (v.t.K != hs.KStr || g.c.Strings) {
+			cands = append(cands, v)
+		}
+	}
+	if len(cands) == 0 {
+		return nil, false
+	}
+	v := cands[g.pick("shadowExitVar", len(cands))]
+	// the shadowing value has another type than the outer variable
+	var inner hs.Expr = hs.ListLit{T: hs.TList(hs.TInt), Elems: []hs.Expr{hs.IntLit{V: 7}}}
+	innerT := hs.TList(hs.TInt)
+	if v.t.K != hs.KBool && g.chance("shadowExitBool", 50) {
+		inner, innerT = hs.BoolLit{V: true}, hs.TBool
+	}
+	say := func(x hs.Expr) hs.Stmt {
+		return hs.ExprStmt{X: hs.Call{Fn: hs.Ident{Name: "println"}, Args: []hs.Expr{hs.StrLit{V: "sx"}, x}, T: hs.TNull}}
+	}
+	guard := func(s hs.Stmt) hs.Stmt {
+		return hs.ExprStmt{X: &hs.If{Cond: hs.BoolLit{V: true}, Then: &hs.Block{Stmts: []hs.Stmt{s}, T: hs.TNull}, T: hs.TNull}}
+	}
+	shadow := []hs.Stmt{hs.Let{Name: v.name, X: inner}, say(hs.Ident{Name: v.name, T: innerT})}
+	outer := hs.Ident{Name: v.name, T: v.t}
+	var st []hs.Stmt
+	switch kind := g.pick("shadowExitKind", 3); kind {
+	case 0, 1:
+		var exit hs.Stmt = hs.Break{}
+		if kind == 1 {
+			exit = hs.Continue{}
+		}
+		body := &hs.Block{T: hs.TNull, Stmts: append(append([]hs.Stmt{}, shadow...), guard(exit), say(hs.StrLit{V: "unreached"}))}
+		st = append(st, hs.For{Var: g.fresh("i"), Iter: hs.RangeLit{Lo: hs.IntLit{V: 0}, Hi: hs.IntLit{V: 2}}, Body: body})
+	default:
+		ev := g.fresh("e")
+		body := &hs.Block{T: hs.TNull, Stmts: append(append([]hs.Stmt{}, shadow...), guard(hs.ExprStmt{X: hs.Call{Fn: hs.Ident{Name: "throw"}, Args: []hs.Expr{hs.StrLit{V: "sx"}}, T: hs.TNever}}))}
+		cb := &hs.Block{T: hs.TNull, Stmts: []hs.Stmt{say(hs.Member{X: hs.Ident{Name: ev, T: errObjT}, Name: "message", T: hs.TStr})}}
+		st = append(st, hs.ExprStmt{X: &hs.Try{Body: body, CatchVar: ev, Catch: cb, T: hs.TNull}})
+	}
+	st = append(st, say(outer))
+	switch v.t.K {
+	case hs.KInt:
+		st = append(st, say(hs.Infix{Op: "+", L: outer, R: hs.IntLit{V: 1}, T: hs.TInt}))
+	case hs.KStr:
+		st = append(st, say(hs.Infix{Op: "+", L: outer, R: hs.StrLit{V: "!"}, T: hs.TStr}))
+	default:
+		st = append(st, say(hs.Prefix{Op: "!", X: outer, T: hs.TBool}))
+	}
+	g.feat("shadow-exit")
+	return st, true
 }
 
 // optOfPlace: `let o = ?l[i];` (or `?obj.f`), then the element / field is overwritten in place, then the option is
